@@ -15,7 +15,7 @@ Extraction "model.ml"
   PromiseConcLemmas.cfg_base PromiseConcLemmas.cfg_derived PromiseConcLemmas.cfg_both PromiseConcLemmas.cfg_two_derived
   PromiseModel.run_prog
   NetModel.address_init NetModel.print_address NetModel.port_of_string Bytes.print_dec
-  MimeModel.parse_media MimeModel.build_string MimeModel.to_string TablesGen.mime_subtypes TablesGen.mime_suffixes
+  MimeModel.parse_media MimeModel.build_string MimeModel.to_string MimeModel.set_quality MimeModel.set_param TablesGen.mime_subtypes TablesGen.mime_suffixes
   CookieModel.from_raw CookieModel.write_cookie CookieModel.jar_add_from_raw
   HeaderModel.conn_parse HeaderModel.conn_write HeaderModel.enc_parse HeaderModel.enc_write HeaderModel.expect_parse HeaderModel.expect_write
   HeaderModel.cl_parse HeaderModel.cl_write HeaderModel.cc_write HeaderModel.cc_parse_top HeaderModel.host_parse HeaderModel.host_write HeaderModel.hdr_lookup HeaderModel.server_parse HeaderModel.server_write
